@@ -130,8 +130,10 @@ func genCertName(r *hx.Rand) string {
 		s = "*"
 	case x < 96:
 		s = b + "."
-	default:
+	case x < 98:
 		s = "*.*." + b
+	default:
+		s = "*." + r.Pick(selSubs) + "." + r.Pick(selSubs) + "." + b
 	}
 	if r.Chance(3, 10) {
 		s = mangleCase(r, s)
@@ -139,9 +141,22 @@ func genCertName(r *hx.Rand) string {
 	return s
 }
 
+// odd requested names: what a ClientHello can carry is not limited to well-formed host names
+var selOdd = []string{"127.0.0.1", "::1", "a..example.com", ".example.com", "-", "*", "*.*", "*.*.example.com", "example.com.x",
+	"xexample.com", "a.example.comx", "com.", "..", "a.b.c.d.e.f.g.h", strings.Repeat("a", 63) + ".example.com",
+	strings.Repeat("abcdefg.", 30) + "example.com", "a.EXAMPLE.com", "foo.test.example.com"}
+
 func genReqName(r *hx.Rand) string {
 	var s string
-	switch x := r.Intn(100); {
+	switch x := r.Intn(108); {
+	case x >= 104:
+		return r.Pick(selOdd)
+	case x >= 100:
+		// deep names: four to six labels in front of a base
+		s = r.Pick(selBases)
+		for n := r.Range(3, 5); n > 0; n-- {
+			s = r.Pick(selSubs) + "." + s
+		}
 	case x < 8:
 		s = ""
 	case x < 11:
